@@ -4,7 +4,7 @@
            | known:<class> (violates; member of a class listed in known_findings.json)
            | decode-error (harness bug, never a verdict) *)
 From Coq Require Import List String.
-From AV Require Import Model.Sexp Model.CaseC13 Model.CaseC16 Model.CaseC20 Model.CaseC09.
+From AV Require Import Model.Sexp Model.CaseC13 Model.CaseC16 Model.CaseC20 Model.CaseC09 Model.CaseC19.
 Import ListNotations.
 Open Scope string_scope.
 
@@ -16,6 +16,7 @@ Definition check_case (e : sexp) : sexp :=
           else if p =? "C16" then check_C16 args
           else if p =? "C20" then check_C20 args
           else if p =? "C09" then check_C09 args
+          else if p =? "C19" then check_C19 args
           else [A "unknown-property"]))
   | _ => L [A "?"; A "decode-error"]
   end.
